@@ -66,6 +66,9 @@ Logged ==
   \/ Is("IdleB") /\ DIdleBegin(Ln.d, Ln.b, Ln.tmo >= 0)
   \/ Is("IdleE") /\ task[DT(Ln.d)].b = Ln.b /\ DIdleRecheck(Ln.d) /\ task'[DT(Ln.d)].pc = "run"
   \/ Is("IdleE") /\ task[DT(Ln.d)].b = Ln.b /\ DIdleTimeout(Ln.d)
+  \/ Is("Wal") /\ \E t \in Tasks : task[t].fb = Ln.b /\ task[t].fe = Ln.e /\ WalWrite(t, FALSE)
+  \/ Is("WalFault") /\ Ln.at = "write" /\ \E t \in Tasks : task[t].fb = Ln.b /\ task[t].fe = Ln.e /\ WalWrite(t, TRUE)
+  \/ Is("WalFault") /\ Ln.at = "open" /\ \E t \in Tasks : task[t].fb = Ln.b /\ task[t].fe = Ln.e /\ WalOpen(t, TRUE)
   \/ Is("StopB") /\ Ln.tmo <= 0 /\ DStopBegin(Ln.d, Ln.b)
   \/ Is("StopE") /\ task[DT(Ln.d)].b = Ln.b /\ (DStopGo(Ln.d) \/ DStopWaitEnd(Ln.d)) /\ task'[DT(Ln.d)].pc = "run"
   \/ Is("CancelRL") /\ DCancelRL(Ln.d, Ln.b)
@@ -75,7 +78,7 @@ Counted ==   \* silent steps that change the state
   \/ \E b \in B : RLStart(b) \/ RLTake(b) \/ RLPollIdle(b) \/ (RLBegin(b) /\ task'[RL(b)].pc = "lockwait")
   \/ \E b \in B : RLDrop(b) \/ RLPollExit(b) \/ RLDie(b) \/ RLShutExit(b) \/ RLDieLocked(b) \/ RLTakeDying(b)
   \/ \E i \in 1..NDrv : DStopGo(i) /\ task'[DT(i)].pc = "stop_wait"
-  \/ \E t \in Tasks : (ProcSelect(t) /\ task'[t].pc = "pb") \/ (OwnerNext(t) /\ task'[t].pc = "waith") \/ OwnerResume(t) \/ OwnerEpilogue(t) \/ OwnerAbort(t) \/ FwdReturn(t) \/ SyncReturn(t) \/ ParStart(t) \/ TimeoutFire(t)
+  \/ \E t \in Tasks : (ProcSelect(t) /\ task'[t].pc = "pb") \/ (OwnerNext(t) /\ task'[t].pc = "waith") \/ OwnerResume(t) \/ OwnerEpilogue(t) \/ OwnerAbort(t) \/ FwdReturn(t) \/ SyncReturn(t) \/ ParStart(t) \/ TimeoutFire(t) \/ WalBegin(t) \/ WalOpen(t, FALSE) \/ WalClose(t)
   \/ \E k \in 1..MaxAct : XStart(k) \/ XEnd(k)
   \/ \E a \in 1..MaxAct : HSuspend(a, "yield") \/ HSuspend(a, "sleep")
   \/ \E i \in 1..NDrv : DIdleStart(i) \/ DIdleJoin(i) \/ DIdleFlag(i) \/ (DIdleRecheck(i) /\ task'[DT(i)].pc # "run")
